@@ -43,6 +43,10 @@ def _execute(mod, script):
     return res.as_dict() if hasattr(res, 'as_dict') else res
 
 
+_HISTORY = []      # run indices this worker process has executed so far, in order (state that code under test keeps at
+                   # module level can carry from run to run: a violation that needs it is replayed with this prelude)
+
+
 def _work(args):
     prop, tier, batch_seed, start, count = args
     from seams import env
@@ -79,9 +83,11 @@ def _work(args):
                 else:
                     rest.append(v)
             r['violations'] = rest
+        _HISTORY.append(i)
         if r['violations']:
             if len(agg['violations']) < 4:
-                agg['violations'].append({'i': i, 'seed': s, 'script': script, 'violations': r['violations']})
+                agg['violations'].append({'i': i, 'seed': s, 'script': script, 'violations': r['violations'],
+                                          'prelude': list(_HISTORY[:-1])})
             else:
                 agg['stats']['violating_runs_not_kept'] = agg['stats'].get('violating_runs_not_kept', 0) + 1
         if i < 2 or (r.get('sample') is not None and len(agg['samples']) < 1):
@@ -164,13 +170,29 @@ def minimise(mod, script, cls, wall=60.0, is_known=None):
     return out
 
 
-def write_replay(prop, seed, script, cls, detail):
+def write_replay(prop, seed, script, cls, detail, prelude=None):
     os.makedirs(REPLAYS, exist_ok=True)
     path = os.path.join(REPLAYS, '%s-%d.json' % (prop, seed))
+    doc = {'property': prop, 'seed': seed, 'expected_class': cls, 'detail': detail, 'script': script}
+    if prelude:
+        # runs executed earlier in the same process (regenerated from their seeds): the violation needs state that the
+        # code under test carried over from them
+        doc['prelude'] = prelude
     with open(path, 'w') as f:
-        json.dump({'property': prop, 'seed': seed, 'expected_class': cls, 'detail': detail, 'script': script},
-                  f, indent=1, sort_keys=True)
+        json.dump(doc, f, indent=1, sort_keys=True)
     return path
+
+
+def _run_prelude(mod, prelude):
+    from seams import env
+    for pr in prelude.get('runs', []):
+        try:
+            sc = mod.generate_i(pr['seed'], prelude['tier'], pr['i']) if hasattr(mod, 'generate_i') else mod.generate(pr['seed'], prelude['tier'])
+            sc['seed'] = pr['seed']
+            with env.quiet():
+                _execute(mod, sc)
+        except BaseException:       # noqa: only the state these runs leave behind matters here
+            pass
 
 
 def replay(path) -> int:
@@ -180,6 +202,8 @@ def replay(path) -> int:
     with open(path) as f:
         rp = json.load(f)
     mod = load_check(rp['property'])
+    if rp.get('prelude'):
+        _run_prelude(mod, rp['prelude'])
     with env.quiet():
         r = _execute(mod, rp['script'])
     if violation_class_in(r, rp['expected_class']):
@@ -294,6 +318,25 @@ def run_check(prop: str, tier: str, batch_seed: int, runs_override=None) -> int:
             if confirm_in_fresh_process(path):
                 reported.append((v['cls'], path, v['detail']))
                 continue
+            # the failure may need state the code under test carried over from earlier runs of the same worker process
+            if rec.get('prelude'):
+                pre = {'tier': tier, 'runs': [{'i': j, 'seed': seed_for(batch_seed, prop, j)} for j in rec['prelude']]}
+                path = write_replay(prop, rec['seed'], rec['script'], v['cls'], v['detail'], prelude=pre)
+                if confirm_in_fresh_process(path):
+                    t_end = time.time() + budget.get('min_wall', 60) * 2
+
+                    def still_fails(runs_subset):
+                        if time.time() > t_end:
+                            return False
+                        write_replay(prop, rec['seed'], rec['script'], v['cls'], v['detail'], prelude=dict(pre, runs=runs_subset))
+                        return confirm_in_fresh_process(path)
+                    kept = ddmin.ddmin(pre['runs'], still_fails)
+                    path = write_replay(prop, rec['seed'], rec['script'], v['cls'], v['detail'], prelude=dict(pre, runs=kept))
+                    if not confirm_in_fresh_process(path):
+                        path = write_replay(prop, rec['seed'], rec['script'], v['cls'], v['detail'], prelude=pre)
+                    reported.append((v['cls'], path, v['detail'] + ' [needs state left behind by %d earlier run(s) of the same process: '
+                                     'see "prelude" in the replay file]' % len(kept)))
+                    continue
             seen_cls.discard(v['cls'])          # let another run of the same class have a try
             unreproduced.append('violation %s of run seed=%d did not reproduce in a fresh process (%s)' % (v['cls'], rec['seed'], path))
 
